@@ -5,6 +5,8 @@ R-C06-1  the five witness guards dominate the prover's Ok, each for every elemen
          the decomposition consuming the difference
 R-C06-2  no other rejection depends on the witness's integers or scalars (no hidden rejection of valid witnesses)
 R-C06-3  (= R-C17-1 for PedersenGens::commit) the commitment function, whose failure the prover hands on, accepts exactly 1..=degree factors
+R-C06-5  the commitment the opening check recomputes takes in every blinding factor: the multiscalar multiplication of `commit` is over
+         (value, blindings..) and (value base, the first len(blindings) blinding bases)
 R-C06-4  (= R-C17-1 / R-C17-3 for RangeWitness::init, CommitmentOpening::r_len / ::new) the witness constructors establish what the
          prover's extension-degree guard relies on: every opening is compared with the first, the stored degree is that length, the
          stored openings are the caller's
@@ -262,9 +264,84 @@ def run(ctx):
     from . import C17
     from .common import shared
     shared(ctx, lambda c: C17.domain_of(c, ['PedersenGens::<P>::commit']), 'R-C17-1', 'R-C06-3')
+    commit_shape(ctx)
     # R-C06-4 (= R-C17-1 / R-C17-3 for the witness constructors): the prover compares the witness's *stored* extension degree with the
     # statement's and never looks at the openings again, so "matching extension degree" is only as good as the constructor invariant
     # "every opening has as many blinding factors as the stored degree says" (and a witness constructor that refuses a valid witness
     # leaves the prover nothing to accept)
     shared(ctx, lambda c: C17.domain_of(c, ['RangeWitness::init', 'CommitmentOpening::r_len']), 'R-C17-1', 'R-C06-4')
     shared(ctx, lambda c: C17.stored_fields(c, only={'RangeWitness::init': ['openings', 'extension_degree'], 'CommitmentOpening::new': ['v', 'r']}), 'R-C17-3', 'R-C06-4')
+
+
+def _segments(t):
+    """a sequence-valued term as an ordered list of ('one', x) / ('many', xs) segments: chain / once / array literals, and vectors created
+    empty and filled by push / extend"""
+    from bpsa.terms import EMPTY_CTORS
+    t0 = t
+    while t.tag in ('via',):
+        t = t[2]
+    if t.tag == 'chain':
+        return _segments(t[1]) + _segments(t[2])
+    if t.tag == 'once':
+        return [('one', t[1])]
+    if t.tag == 'array':
+        return [('one', x) for x in t.args]
+    if t.tag == 'adapt' and t[1] in ('iter', 'into_iter', 'copied', 'cloned') and len(t.args) == 2:
+        return _segments(t[2])
+    if t.tag == 'mut':
+        base = t[1]
+        while base.tag == 'mut':
+            base = base[1]
+        if base.tag == 'call' and base[1] in EMPTY_CTORS:
+            out = []
+            for ev in t[2]:
+                if ev.tag != 'ev':
+                    continue
+                nm = ev[2].split('::')[-1]
+                if nm == 'push' and ev[3]:
+                    out.append(('one', ev[3][0]))
+                elif nm in ('extend', 'extend_from_slice') and ev[3]:
+                    out += _segments(ev[3][0])
+                else:
+                    return [('many', t0)]
+            return out
+    return [('many', t0)]
+
+
+def commit_shape(ctx):
+    """R-C06-5: the commitment the prover's opening check recomputes is v*H + sum_k r_k*G_k over *all* the blinding factors handed in:
+    the scalars of the multiscalar multiplication in `PedersenGens::commit` are the value followed by the whole blinding slice, the points
+    are the value base followed by as many blinding bases as there are blinding factors.  (A blinding factor that does not enter the
+    commitment makes the check accept openings that do not open it and refuse ones that do.)"""
+    rep = ctx.rep
+    b = ctx.fn('PedersenGens::<P>::commit', 'R-C06-5')
+    if b is None:
+        return
+    sites = [(bb, t) for bb, t in ctx.calls(b) if callee_decl(t).split('::')[-1] in ('multiscalar_mul', 'vartime_multiscalar_mul')]
+    if len(sites) != 1:
+        rep.anchor_missing('R-C06-5', 'R-C06-5/commit/msm', '%d multiscalar multiplications in PedersenGens::commit' % len(sites))
+        return
+    bb = sites[0][0]
+    sc, pt = ctx.args(b, bb)[:2]
+    val_p = [i for i in range(1, b.argc + 1) if b.local_ty(i).startswith('&') and not b.local_ty(i).startswith('&[') and 'PedersenGens' not in b.local_ty(i)]
+    bl_p = [i for i in range(1, b.argc + 1) if b.local_ty(i).startswith('&[')]
+    def params(t):
+        return {x[2] for x in walk(t) if x.tag == 'param' and x[1] == b.key}
+    def fields(t):
+        return {x[1] for x in walk(t) if x.tag == 'field'}
+    ss, ps = _segments(sc), _segments(pt)
+    lenb = {canon(x) for x in walk(pt) if x.tag == 'call' and x[1].split('::')[-1] == 'len' and len(x[2]) == 1 and params(x[2][0]) & set(bl_p)}
+    ok_s = (len(ss) == 2 and ss[0][0] == 'one' and params(ss[0][1]) & set(val_p) and ss[1][0] == 'many' and params(ss[1][1]) & set(bl_p)
+            and not ctx.adapters(ss[1][1]))
+    ok_p = False
+    if len(ps) == 2 and ps[0][0] == 'one' and 'h_base' in fields(ps[0][1]) and ps[1][0] == 'many' and 'g_base_vec' in fields(ps[1][1]):
+        m = ps[1][1]
+        while m.tag in ('via', 'mut'):
+            m = m[2] if m.tag == 'via' else m[1]
+        ads = ctx.adapters(m)
+        if ads == ['take'] and m.tag == 'adapt' and m[1] == 'take' and len(m.args) >= 3 and canon(m[3]) in lenb:
+            ok_p = True
+    rep.check(bool(ok_s), 'R-C06-5', 'R-C06-5/commit/scalars', 'the scalars of the commitment are the value followed by the whole blinding slice',
+              'the scalars of the commitment are %s: not the value followed by every blinding factor' % short(sc, 160), ctx.where(b, bb))
+    rep.check(ok_p, 'R-C06-5', 'R-C06-5/commit/points', 'the points of the commitment are the value base followed by the first len(blindings) blinding bases',
+              'the points of the commitment are %s: not the value base followed by one blinding base per blinding factor' % short(pt, 160), ctx.where(b, bb))
